@@ -46,28 +46,29 @@ let publish (args : int list) : int list =
                 (show_ints r1) (show_ints r2));
   r1
 
-(* <nops> (<op> <key> <target>)*nops ; outs concatenated *)
+(* <nops> (<op> <key> <target>)*nops ; outs concatenated
+   op: 0 Subscribe (no context) | 4 SubscribeContext(live context) | 5 SubscribeContext(already cancelled context)
+       1 Unsubscribe | 2 Publish to buffered, drained targets | 3 lookup *)
 let registry (args : int list) : int list =
   match args with
   | nops :: rest ->
-      let sorted_lookup k r = L.sort compare (L.map int_of_nat (Notifier.lookup (nat_of_int k) r)) in
-      let rec go k l (r : Notifier.registry) acc =
+      let sorted_lookup k (r : Notifier.cregistry) = L.sort compare (L.map int_of_nat (Notifier.lookup (nat_of_int k) (fst r))) in
+      let sub c key t r =
+        match Notifier.subscribe_ctx c (nat_of_int key) (nat_of_int t) r with
+        | Some r' -> (r', 1) | None -> (r, 0) in
+      let rec go k l (r : Notifier.cregistry) acc =
         if k = 0 then (if l <> [] then failwith "notifier_registry: trailing tokens"; L.rev acc)
         else match l with
-          | 0 :: key :: t :: l' ->
-              (match Notifier.subscribe (nat_of_int key) (nat_of_int t) r with
-               | Some r' -> go (k - 1) l' r' (1 :: acc)
-               | None -> go (k - 1) l' r (0 :: acc))
+          | 0 :: key :: t :: l' -> let (r', o) = sub Notifier.CtxNone key t r in go (k - 1) l' r' (o :: acc)
+          | 4 :: key :: t :: l' -> let (r', o) = sub Notifier.CtxLive key t r in go (k - 1) l' r' (o :: acc)
+          | 5 :: key :: t :: l' -> let (r', o) = sub Notifier.CtxCancelled key t r in go (k - 1) l' r' (o :: acc)
           | 1 :: key :: t :: l' ->
-              (match Notifier.unsubscribe (nat_of_int key) (nat_of_int t) r with
+              (match Notifier.unsubscribe_ctx (nat_of_int key) (nat_of_int t) r with
                | Some r' -> go (k - 1) l' r' (1 :: acc)
                | None -> go (k - 1) l' r (0 :: acc))
           | 2 :: key :: _ :: l' ->
-              (* Publish to buffered, drained targets: run_publish over the targets registered under the key, every
-                 one of them ready; it must return *)
-              let ts = Notifier.lookup (nat_of_int key) r in
-              let ss = L.map (fun t -> { Notifier.sid = t; has_ctx = false; cancelled0 = false; compat = true }) ts in
-              let (del, ret) = Notifier.run_publish false ss (L.map (fun t -> Notifier.EvReady t) ts) in
+              (* Publish to buffered, drained targets: every pending one is ready; it must return *)
+              let (del, ret) = Notifier.publish_ready (nat_of_int key) r in
               if not ret then failwith "notifier_registry: model publish did not return";
               let ids = L.sort compare (L.map int_of_nat del) in
               go (k - 1) l' r (L.rev_append (L.length ids :: ids) acc)
@@ -75,7 +76,7 @@ let registry (args : int list) : int list =
               let ids = sorted_lookup key r in
               go (k - 1) l' r (L.rev_append (L.length ids :: ids) acc)
           | _ -> failwith "notifier_registry: bad op" in
-      go nops rest [] []
+      go nops rest ([], []) []
   | _ -> failwith "notifier_registry: args"
 
 let init () =
